@@ -8,18 +8,19 @@ MODES = {0: "base", 1: "psk", 2: "auth", 3: "auth_psk"}
 
 
 def hpke_job(w, i, job):
-    """RFC 9180 sender setup executed by TLC (HpkeJob.tla)."""
+    """RFC 9180 sender setup executed by TLC (HpkeJob.tla; HpkeP256Job.tla for DHKEM(P-256))."""
     d = os.path.join(w, "hj%d" % i)
     os.makedirs(d, exist_ok=True)
     C.stage_specs(d, "C07")
     json.dump(job, open(os.path.join(d, "job.json"), "w"))
-    r = C.tlc(d, "HpkeJob", "HpkeJob.cfg", workers=1, heap="3g", timeout=3000, stack="256m")
+    module = "HpkeP256Job" if job.get("kem") == 16 else "HpkeJob"
+    r = C.tlc(d, module, module + ".cfg", workers=1, heap="3g", timeout=3000, stack="256m")
     vp = os.path.join(d, "verdict.json")
     if not r.ok or not os.path.exists(vp):
-        raise C.Infra("HpkeJob failed:\n%s" % r.tail(40))
+        raise C.Infra("%s failed:\n%s" % (module, r.tail(40)))
     v = json.load(open(vp))
-    if not v["done"]:
-        raise C.Infra("HpkeJob did not reach the end:\n%s" % r.tail(20))
+    if not v["done"] or not v.get("sane", True):
+        raise C.Infra("%s did not reach the end / failed its sanity conditions (a DeriveKeyPair candidate outside [1, n-1] is not retried): %s\n%s" % (module, v, r.tail(20)))
     return v, r.distinct
 
 
@@ -35,7 +36,7 @@ def run(tier, rep, replay=None):
     C.run([drv, "-suites", os.path.join(w, "suites.json"), "-out", tp, "-seed", str(C.SEED), "-reps", "12" if thorough else "1"],
           timeout=3000, what="c07 driver")
     lines = C.read_ndjson(tp)
-    hjobs = [(l.pop("job"), "mode=%s aead=%d" % (MODES[l["mode"]], l["aead"])) for l in lines if "job" in l]
+    hjobs = [(l.pop("job"), "%smode=%s aead=%d" % ("p256 " if l["kem"] == 16 else "", MODES[l["mode"]], l["aead"])) for l in lines if "job" in l]
     # ---- TLC executes RFC 9180 itself for DHKEM(X25519, HKDF-SHA256) + HKDF-SHA256 sender setups of the run (base and PSK mode)
     hx = lambda h: list(bytes.fromhex(h))
     rfc = {"mode": 0, "aead": 1, "nk": 16, "ikmE": hx("7268600d403fce431561aef583ee1613527cff655c1343f29812e66706df3234"),
@@ -44,6 +45,13 @@ def run(tier, rep, replay=None):
            "base_nonce": hx("56d890e5accaaf011cff4b7d"), "exp": hx("45ff1c2e220db587171952c0592d5f5ebe103f1561a2614e38f2ffd47e99e3f8")}
     fals = copy.deepcopy(rfc)
     fals["key"][3] ^= 1
+    rfcp = {"kem": 16, "mode": 0, "aead": 1, "nk": 16, "ikmE": hx("4270e54ffd08d79d5928020af4686d8f6b7d35dbe470265f1f5aa22816ce860e"),
+            "pkR": hx("04fe8c19ce0905191ebc298a9245792531f26f0cece2460639e8bc39cb7f706a826a779b4cf969b8a0e539c7f62fb3d30ad6aa8f80e30f1d128aafd68a2ce72ea0"),
+            "skS": [], "pkS": [], "info": hx("4f6465206f6e2061204772656369616e2055726e"), "psk": [], "psk_id": [],
+            "enc": hx("04a92719c6195d5085104f469a8b9814d5838ff72b60501e2c4466e5e67b325ac98536d7b61a1af4b78e5b7f951c0900be863c403ce65c9bfcb9382657222d18c4"),
+            "key": hx("868c066ef58aae6dc589b6cfdd18f97e"), "base_nonce": hx("4e0bc5018beba4bf004cca59"), "exp": hx("14ad94af484a7ad3ef40e9f3be99ecc6fa9036df9d4920548424df127ee0d99f")}
+    falsp = copy.deepcopy(rfcp)
+    falsp["exp"][0] ^= 128
     rnd0 = random.Random(C.SEED)
     bykind = {}
     for j, k in hjobs:
@@ -51,18 +59,21 @@ def run(tier, rep, replay=None):
     pick = [(rnd0.choice(v), k) for k, v in sorted(bykind.items())]
     if not thorough:
         rnd0.shuffle(pick)
-        pick = pick[:3]
+        px, pp = [x for x in pick if not x[1].startswith("p256")], [x for x in pick if x[1].startswith("p256")]
+        pick = px[:3] + ([x for x in pp if "auth" in x[1]][:1] + [x for x in pp if "auth" not in x[1]][:1])
     else:
-        pick = pick + [(rnd0.choice(v), k) for k, v in sorted(bykind.items())]
-    with ThreadPoolExecutor(min(C.NCPU, 12)) as ex:
-        hres = list(ex.map(lambda ij: hpke_job(w, ij[0], ij[1][0]), enumerate([(rfc, "rfc9180-A.1.1"), (fals, "falsified")] + pick)))
+        pick = pick + [(rnd0.choice(v), k) for k, v in sorted(bykind.items()) if not k.startswith("p256")]
+    with ThreadPoolExecutor(min(C.NCPU, 14)) as ex:
+        hres = list(ex.map(lambda ij: hpke_job(w, ij[0], ij[1][0]), enumerate([(rfc, "rfc9180-A.1.1"), (fals, "falsified"), (rfcp, "rfc9180-A.3.1"), (falsp, "falsified")] + pick)))
     if not all(hres[0][0][k] for k in ("enc", "key", "base_nonce", "exp")) or hres[1][0]["key"]:
         raise C.Infra("HpkeJob does not reproduce RFC 9180 A.1.1 / accepts a falsified key")
-    for (job, kind), (v, _) in zip(pick, hres[2:]):
+    if not all(hres[2][0][k] for k in ("enc", "key", "base_nonce", "exp")) or hres[3][0]["exp"]:
+        raise C.Infra("HpkeP256Job does not reproduce RFC 9180 A.3.1 / accepts a falsified exporter secret")
+    for (job, kind), (v, _) in zip(pick, hres[4:]):
         for part in ("enc", "key", "base_nonce", "exp"):
             if not v[part]:
-                rep.violation("rfc9180:x25519-sha256:%s:%s" % (kind.replace(" ", ":"), part), {"kind": kind, "ikmE": bytes(job["ikmE"]).hex(), "pkR": bytes(job["pkR"]).hex(), "info": bytes(job["info"]).hex(),
-                                                                                     "explain": "the library's %s is not the value TLC computes from RFC 9180 (HpkeJob.tla)" % part})
+                rep.violation("rfc9180:%s-sha256:%s:%s" % ("p256" if job.get("kem") == 16 else "x25519", kind.replace("p256 ", "").replace(" ", ":"), part), {"kind": kind, "ikmE": bytes(job["ikmE"]).hex(), "pkR": bytes(job["pkR"]).hex(), "info": bytes(job["info"]).hex(),
+                                                                                     "explain": "the library's %s is not the value TLC computes from RFC 9180 (HpkeJob.tla / HpkeP256Job.tla)" % part})
     rep.add(tlc_executed_setups=len(pick), tlc_executed_kinds=sorted({k for _, k in pick}))
     bad, r = C.validate_lines(w, "Trace_HpkeSetup", "Lines.cfg", lines)
     for i in bad:
@@ -93,7 +104,7 @@ def run(tier, rep, replay=None):
 
 
 MANIFEST = {
- "text": "HpkeJob.tla is the RFC 9180 sender setup (base and PSK mode) for DHKEM(X25519, HKDF-SHA256) + HKDF-SHA256 as an executable behaviour - DeriveKeyPair, LabeledExtract / LabeledExpand over HMAC-SHA-256 (Sha256Ops.tla, one action per round), X25519 by the RFC 7748 ladder, ExtractAndExpand, key schedule - with which TLC recomputes enc, key, base_nonce and exporter secret of sampled setups of the run after reproducing RFC 9180 A.1.1 and rejecting a falsified key. HpkeSetup.tla writes RFC 9180 sections 4-5 as symbolic terms (suite ids, LabeledExtract/Expand, DHKEM incl. the P-curve rejection loop, KeySchedule, Seal nonce, Export, VerifyPSKInputs) and a setup state machine; TLC checks symbolically that a receiver derives the sender's context iff no input deviates (DH commutation normalised) and the PSK rule table. TLC emits the terms for all 7 KEM x 3 KDF x 3 AEAD x 4 mode combinations; the harness evaluates them with non-circl primitives and compares enc, DeriveKeyPair output, key, base_nonce, exporter secret, first ciphertext and exports (5 lengths incl. 0 and 255*Nh) with what real Sender objects produce, runs receivers that deviate in exactly one input, and TLC judges every recorded scenario.",
+ "text": "HpkeP256Job.tla is the RFC 9180 sender setup in all four modes for DHKEM(P-256, HKDF-SHA256) + HKDF-SHA256 (DeriveKeyPair with the candidate / bitmask rule, scalar multiplication on P-256 one action per bit, SerializePublicKey, kem_context with pkSm and the second DH in the auth modes), reproducing RFC 9180 A.3.1. HpkeJob.tla is the RFC 9180 sender setup (base and PSK mode) for DHKEM(X25519, HKDF-SHA256) + HKDF-SHA256 as an executable behaviour - DeriveKeyPair, LabeledExtract / LabeledExpand over HMAC-SHA-256 (Sha256Ops.tla, one action per round), X25519 by the RFC 7748 ladder, ExtractAndExpand, key schedule - with which TLC recomputes enc, key, base_nonce and exporter secret of sampled setups of the run after reproducing RFC 9180 A.1.1 and rejecting a falsified key. HpkeSetup.tla writes RFC 9180 sections 4-5 as symbolic terms (suite ids, LabeledExtract/Expand, DHKEM incl. the P-curve rejection loop, KeySchedule, Seal nonce, Export, VerifyPSKInputs) and a setup state machine; TLC checks symbolically that a receiver derives the sender's context iff no input deviates (DH commutation normalised) and the PSK rule table. TLC emits the terms for all 7 KEM x 3 KDF x 3 AEAD x 4 mode combinations; the harness evaluates them with non-circl primitives and compares enc, DeriveKeyPair output, key, base_nonce, exporter secret, first ciphertext and exports (5 lengths incl. 0 and 255*Nh) with what real Sender objects produce, runs receivers that deviate in exactly one input, and TLC judges every recorded scenario.",
  "note": "Trusted: Go standard library / x/crypto primitives that interpret the term symbols. Inputs are seeded random (1 concretisation per scenario in quick, 12 in thorough), not exhaustive. Sender reuse across modes is out of scope.",
  "technique": "executable RFC 9180 (X25519 / HKDF-SHA256 suites) in TLA+ recomputing sampled contexts + TLC symbolic model check of RFC 9180 term algebra + TLC-emitted terms evaluated by an independent evaluator and compared with real hpke + TLC trace judgement",
 }
